@@ -169,6 +169,77 @@ PYEOF
   rm -rf "$PDIR"
 fi
 
+# ---- generic extra pass: the same monitor built differently runs this property's quick-size workload.
+#   extra_pass <label> <evidence key> <how> <GOARCH or ""> <extra go build flags...>
+# Its verdict counts: a violation there is a violation (its witnesses are copied to replays/<label>-...).
+extra_pass() {
+  local label="$1" key="$2" how="$3" arch="$4"; shift 4
+  local pdir; pdir="$(mktemp -d /tmp/verifpass.XXXXXX)"
+  if (cd "$ROOT/harness" && GOARCH="${arch:-$(go env GOARCH)}" go build "${MODFLAG[@]}" "$@" -o "$pdir/mon" ./cmd/mon) >/dev/null 2>&1; then
+    VERIF_TIER=quick VERIF_OUT="$pdir/out" VERIF_PLATFORM_PASS="$label" VERIF_MON="$pdir/mon" VERIF_MON_FAST="$pdir/mon" \
+      GORACE="halt_on_error=0 log_path=$pdir/race" timeout -s KILL 3600 "$pdir/mon" "$PROP" > "$pdir/log" 2>&1
+    local prc=$?
+    local races=0
+    if ls "$pdir"/race.* >/dev/null 2>&1; then
+      races=$(cat "$pdir"/race.* | awk 'BEGIN{RS="=================="} /WARNING: DATA RACE/ && /go\.lstv\.dev\/util\// {n++} END{print n+0}')
+    fi
+    echo "$label pass: rc=$prc races_in_util=$races $(grep -E '^(HELD|VIOLATION|INCONCLUSIVE)' "$pdir/log" | head -1)" | cut -c1-230
+    if [ "$races" -gt 0 ]; then
+      local rr="$OUTDIR/replays/$label-$PROP-race-$(date +%s).txt"
+      cat "$pdir"/race.* | head -120 > "$rr"
+      echo "witness: $races data race report(s) with go.lstv.dev/util frames while the $PROP workload ran under the race detector"
+      echo "VIOLATION property=$PROP replay=$rr"
+      rc=1
+    fi
+    if [ $prc -eq 1 ]; then
+      grep -E '^witness' "$pdir/log" | head -3 | cut -c1-600
+      for f in "$pdir"/out/replays/*.json; do [ -f "$f" ] && cp "$f" "$OUTDIR/replays/$label-$(basename "$f")"; done
+      local first; first="$(ls "$OUTDIR"/replays/"$label"-"$PROP"-*.json 2>/dev/null | head -1)"
+      echo "VIOLATION property=$PROP replay=${first:-$OUTDIR/replays}"
+      rc=1
+    fi
+    python3 - "$OUTDIR/evidence/$PROP.json" "$pdir/out/evidence/$PROP.json" "$prc" "$key" "$how" "$races" <<'PYEOF'
+import json,sys
+p,q,prc,key,how,races=sys.argv[1],sys.argv[2],int(sys.argv[3]),sys.argv[4],sys.argv[5],int(sys.argv[6])
+try:
+    ev=json.load(open(p))
+    info={"how":how,"exit":prc,"race_reports_in_util":races}
+    try:
+        e2=json.load(open(q)); info["evaluations"]=e2["coverage"]["evaluations"]; info["violations"]=e2.get("violations",0)
+    except Exception: pass
+    ev["coverage"][key]=info
+    if prc==1 or races>0: ev["violations"]=ev.get("violations",0)+max(info.get("violations",0),1)
+    json.dump(ev,open(p,"w"),indent=1)
+except Exception as e:
+    print("could not add the pass to evidence:",e)
+PYEOF
+  else
+    echo "$label pass: build failed (pass skipped)"
+  fi
+  rm -rf "$pdir"
+}
+
+# ---- build-tag pass (every tier): custom build tags named in the repository's own //go:build lines select
+# other source files; the property must hold for those builds too. No custom tag, no cost.
+if [ $rc -eq 0 ] && [ "${VERIF_NO_TAGS:-0}" != "1" ]; then
+  known=" aix android darwin dragonfly freebsd hurd illumos ios js linux nacl netbsd openbsd plan9 solaris wasip1 windows zos unix 386 amd64 arm arm64 loong64 mips mips64 mips64le mipsle ppc64 ppc64le riscv64 s390x wasm cgo race msan asan gc gccgo ignore purego appengine go tools integration verif "
+  tags="$(grep -rhE '^//go:build |^// \+build ' --include='*.go' "$REPO" 2>/dev/null | sed -E 's#^//go:build |^// \+build ##' | tr -c 'A-Za-z0-9_.\n' ' ' | tr ' ' '\n' | grep -E '^[A-Za-z_][A-Za-z0-9_.]*$' | grep -vE '^go1\.' | sort -u)"
+  n=0
+  for t in $tags; do
+    case "$known" in *" $t "*) continue;; esac
+    n=$((n+1)); [ $n -gt 3 ] && break
+    extra_pass "tag-$t" "build_tag_$t" "the same monitor built with -tags $t (a build tag named in the repository's own build constraints), quick-size workload" "" -tags "$t"
+    [ $rc -ne 0 ] && break
+  done
+fi
+
+# ---- race pass (thorough tier): the whole quick-size workload of this property under the race detector. The
+# library promises no shared mutable state outside uu; sixteen workers calling every entry point concurrently
+# must not produce a single report with library frames. (C19 is decided by the race detector anyway.)
+if [ "$TIER" = "thorough" ] && [ "$PROP" != "C19" ] && [ $rc -eq 0 ] && [ "${VERIF_NO_RACE_PASS:-0}" != "1" ]; then
+  extra_pass "race" "race_pass" "the same monitor built with -race, quick-size workload, GORACE halt_on_error=0 log_path; reports with go.lstv.dev/util frames are counted" "" -race
+fi
+
 # ---- thorough tier: reach evidence. A cover-instrumented build of the same monitor runs this
 # property's quick-size workload once (same generators, same seed); the statement coverage
 # of the property's anchored files goes into the evidence as coverage.anchor_coverage.
